@@ -125,8 +125,37 @@ def hardened(E, R, purpose, testnet, L, pos):
     return "refused"
 
 
+def bulk(E, R, purpose, testnet):
+    """generate_children on a watch-only wallet's node (real public ckd): refused as soon as the interval reaches 2^31"""
+    from props import C13
+    X, full, watch, p = _export(E, R, purpose, testnet, 1)
+    if isinstance(watch, Raised):
+        E.fail("a wallet can be built from every extended public key")
+        return "raised"
+    C13._real_ckd(E, R, True)
+    try:
+        a = E.bv("a", 32, hi=2 ** 32 - 3)
+        r = E.run(watch.master.generate_children, (a, a + 2))
+        if (bool(a + 1 >= HARD) if E.symbolic else a + 1 >= HARD):
+            E.check(isinstance(r, Raised), "bulk child generation on a watch-only wallet refuses hardened indexes")
+            return "refused"
+        if isinstance(r, Raised):
+            return "raised"
+        for j, ch in enumerate(r):
+            E.check(type(ch) is R.bip32.PubKeyNode, "bulk-generated nodes of a watch-only wallet are public nodes")
+            ref = cm.ckd_priv(E, p["k"], p["c"], a + j)
+            if ref[0] != "invalid":
+                E.check_eq([ch.key, ch.chain_code], [E.H.sec(ref[0]), ref[1]], "bulk-generated public child equals the private derivation's public part")
+        return "ok"
+    finally:
+        C13._real_ckd(E, R, False)
+
+
 def cases(tier):
     cs = []
+    for (purpose, testnet) in ((84, False), (44, True)):
+        cs.append(Case("bulk[%d,%s]" % (purpose, testnet), "bulk", dict(purpose=purpose, testnet=testnet), weight=20, max_paths=5000,
+                       need=("bulk child generation on a watch-only wallet refuses hardened indexes",)))
     top = 3 if tier == "quick" else 5
     for (purpose, testnet) in PUBV:
         for L in range(0, top + 1):
